@@ -314,3 +314,195 @@ Proof.
   intros H. apply flight_model in H as (r & Hr & Ha). symmetry in Ha.
   apply answer1_page in Ha as (v & l & Ht & _ & Hl & _ & Hp). now exists r, v, l.
 Qed.
+
+(* ================================================================== completion: the second judgement of the redirect URI *)
+(* what "v is a place the registration g allows request p to be answered at" means *)
+Definition target_at (g : regn) (p : areq) (v : pystr) : Prop :=
+  match g with
+  | Gone => False
+  | Reg regs native =>
+      match q_uri p with
+      | Some u => v = u /\ verify_uri regs native (q_oidc p) u = Ok tt
+      | None => exists b q, regs = [RPair b q] /\ join_query b q = Ok v
+      end
+  end.
+
+Lemma get_uri_at_target g p v : get_uri_at g (q_oidc p) (q_uri p) = Ok v -> target_at g p v.
+Proof.
+  destruct g as [|regs native]; cbn [get_uri_at target_at]; [discriminate|]. intros H.
+  assert (D : decide regs native (q_oidc p) (q_uri p) = Redirectable v) by (unfold decide; now rewrite H).
+  exact (decide_redirectable _ _ _ _ _ D).
+Qed.
+
+Lemma deliver_to_redirect v p url : deliver_to v p = ARedirect url ->
+  exists l, enc_pairs (q_args p) = Ok l /\ url = place v (urlencode_b l) (q_frag p).
+Proof.
+  unfold deliver_to. destruct (q_form p).
+  - destruct (deliver_form v (q_args p)); discriminate.
+  - destruct (url_refused p); [discriminate|]. unfold deliver_url.
+    destruct (enc_pairs (q_args p)) as [l|e|]; cbn [bind]; try discriminate.
+    intros H. inversion H. now exists l.
+Qed.
+Lemma deliver_to_page v p page : deliver_to v p = APage page ->
+  exists l, form_pairs (q_args p) = Ok l /\ page = form_page v l.
+Proof.
+  unfold deliver_to. destruct (q_form p).
+  - unfold deliver_form. destruct (form_pairs (q_args p)) as [l|e|]; cbn [bind]; try discriminate.
+    intros H. inversion H. now exists l.
+  - destruct (url_refused p); [discriminate|]. destruct (deliver_url v (q_args p) (q_frag p)); discriminate.
+Qed.
+Definition mode_frag (md : rmode) : bool := match md with MFragment => true | _ => false end.
+Lemma by_mode_redirect md v p url : by_mode md v p = ARedirect url ->
+  exists l, enc_pairs (q_args p) = Ok l /\ url = place v (urlencode_b l) (mode_frag md).
+Proof.
+  unfold by_mode, deliver_url, deliver_form. destruct md; try discriminate.
+  - destruct (url_refused p); [discriminate|].
+    destruct (enc_pairs (q_args p)) as [l|e|]; cbn [bind]; try discriminate. intros H. inversion H. now exists l.
+  - destruct (url_refused p); [discriminate|].
+    destruct (enc_pairs (q_args p)) as [l|e|]; cbn [bind]; try discriminate. intros H. inversion H. now exists l.
+  - destruct (form_pairs (q_args p)); cbn [bind]; discriminate.
+Qed.
+Lemma by_mode_page md v p page : by_mode md v p = APage page ->
+  md = MForm /\ exists l, form_pairs (q_args p) = Ok l /\ page = form_page v l.
+Proof.
+  unfold by_mode, deliver_url, deliver_form. destruct md; try discriminate.
+  - destruct (url_refused p); [discriminate|]. destruct (enc_pairs (q_args p)); cbn [bind]; discriminate.
+  - destruct (url_refused p); [discriminate|]. destruct (enc_pairs (q_args p)); cbn [bind]; discriminate.
+  - destruct (form_pairs (q_args p)) as [l|e|]; cbn [bind]; try discriminate. intros H. inversion H.
+    split; [reflexivity|]. now exists l.
+Qed.
+
+(* whatever the completion step sends by redirect goes to a URI that get_uri accepts under the registration
+   in force when the response is built, and carries exactly the parameters issued for the request *)
+Theorem complete_redirect g md failed p url :
+  complete g md failed p = ARedirect url ->
+  exists v l, get_uri_at g (q_oidc p) (q_uri p) = Ok v /\ target_at g p v /\ enc_pairs (q_args p) = Ok l
+              /\ url = place v (urlencode_b l) (if failed then mode_frag md else q_frag p).
+Proof.
+  unfold complete. destruct (get_uri_at g (q_oidc p) (q_uri p)) as [v|e|] eqn:E; try discriminate.
+  intros H. pose proof (get_uri_at_target _ _ _ E) as T. destruct failed.
+  - apply by_mode_redirect in H as (l & Hl & Hu). now exists v, l.
+  - apply deliver_to_redirect in H as (l & Hl & Hu). now exists v, l.
+Qed.
+Theorem complete_page g md failed p page :
+  complete g md failed p = APage page ->
+  exists v l, get_uri_at g (q_oidc p) (q_uri p) = Ok v /\ target_at g p v /\ form_pairs (q_args p) = Ok l
+              /\ page = form_page v l /\ read_page page = Some (v, l).
+Proof.
+  unfold complete. destruct (get_uri_at g (q_oidc p) (q_uri p)) as [v|e|] eqn:E; try discriminate.
+  intros H. pose proof (get_uri_at_target _ _ _ E) as T. destruct failed.
+  - apply by_mode_page in H as (_ & l & Hl & Hu). exists v, l. subst page. repeat split; auto. apply read_page_form_page.
+  - apply deliver_to_page in H as (l & Hl & Hu). exists v, l. subst page. repeat split; auto. apply read_page_form_page.
+Qed.
+(* a redirect URI that does not verify when the response is built: nothing is placed anywhere, whatever the
+   exception, the response mode, and whether or not completion failed for another reason as well *)
+Theorem complete_unverified_direct g md failed p e :
+  get_uri_at g (q_oidc p) (q_uri p) = Err e -> complete g md failed p = AOther.
+Proof. unfold complete. now intros ->. Qed.
+Theorem complete_gone md failed p : complete Gone md failed p = AOther.
+Proof. reflexivity. Qed.
+(* an error built after a failed completion travels by redirect iff the URI verifies at that moment *)
+Theorem complete_failed g md p :
+  (forall v, get_uri_at g (q_oidc p) (q_uri p) = Ok v -> complete g md true p = by_mode md v p) /\
+  (forall e, get_uri_at g (q_oidc p) (q_uri p) = Err e -> complete g md true p = AOther).
+Proof. unfold complete. split; now intros ? ->. Qed.
+Theorem by_mode_form v p l : form_pairs (q_args p) = Ok l -> by_mode MForm v p = APage (form_page v l).
+Proof. unfold by_mode, deliver_form. now intros ->. Qed.
+
+(* a stored request is judged by the completion step alone *)
+Theorem answer_at_stored viap failed g md r : answer_at true viap failed g md r = complete g md failed r.
+Proof. reflexivity. Qed.
+
+(* the whole history: a redirect / a page handed out for a request goes to a URI verified under the registration in
+   force at completion; p is the request as the completion step saw it *)
+Definition seen_at_completion (stored : bool) (r p : areq) : Prop :=
+  if stored then p = r else exists v0, parse_step r = Redirectable v0 /\ p = set_uri r v0.
+Theorem answer_at_redirect stored viap failed g md r url :
+  answer_at stored viap failed g md r = ARedirect url ->
+  exists p v l frag, seen_at_completion stored r p /\ get_uri_at g (q_oidc p) (q_uri p) = Ok v /\ target_at g p v
+                     /\ enc_pairs (q_args r) = Ok l /\ url = place v (urlencode_b l) frag.
+Proof.
+  unfold answer_at. destruct stored.
+  - intros H. apply complete_redirect in H as (v & l & H1 & H2 & H3 & H4). exists r, v, l. eexists. repeat split; eauto.
+  - destruct (parse_step r) as [v0| |e|] eqn:Ep; cbn [of_decision]; try discriminate.
+    intros H. assert (H' : exists f, complete g md f (set_uri r v0) = ARedirect url).
+    { destruct viap; [|eauto]. unfold process_call in H. destruct g; [discriminate|eauto]. }
+    destruct H' as [f H']. apply complete_redirect in H' as (v & l & H1 & H2 & H3 & H4).
+    exists (set_uri r v0), v, l. eexists. repeat split; eauto. exists v0. auto.
+Qed.
+Theorem answer_at_page stored viap failed g md r page :
+  answer_at stored viap failed g md r = APage page ->
+  exists p v l, seen_at_completion stored r p /\ get_uri_at g (q_oidc p) (q_uri p) = Ok v /\ target_at g p v
+                /\ form_pairs (q_args r) = Ok l /\ read_page page = Some (v, l).
+Proof.
+  unfold answer_at. destruct stored.
+  - intros H. apply complete_page in H as (v & l & H1 & H2 & H3 & _ & H5). exists r, v, l. repeat split; eauto.
+  - destruct (parse_step r) as [v0| |e|] eqn:Ep; cbn [of_decision]; try discriminate.
+    intros H. assert (H' : exists f, complete g md f (set_uri r v0) = APage page).
+    { destruct viap; [|eauto]. unfold process_call in H. destruct g; [discriminate|eauto]. }
+    destruct H' as [f H']. apply complete_page in H' as (v & l & H1 & H2 & H3 & _ & H5).
+    exists (set_uri r v0), v, l. repeat split; eauto. exists v0. auto.
+Qed.
+
+(* the new dimension is conservative: with the registration unchanged and completion not failing, the history
+   of a request is the answer it gets alone (answer1) *)
+Theorem answer_at_unchanged viap md r :
+  answer1 r <> AOutside -> answer_at false viap false (Reg (q_regs r) (q_native r)) md r = answer1 r.
+Proof.
+  unfold answer_at, answer1. destruct (parse_step r) as [v| |e|]; try reflexivity.
+  intros Hn. assert (E : complete (Reg (q_regs r) (q_native r)) md false (set_uri r v) = process_step (set_uri r v)).
+  { unfold complete, process_step, get_uri_at in *. cbn [set_uri q_regs q_native q_oidc q_uri] in *.
+    destruct (get_uri (q_regs r) (q_native r) (q_oidc r) (Some v)); try reflexivity; now destruct Hn. }
+  destruct viap; [unfold process_call|]; exact E.
+Qed.
+
+(* ---- a request in flight while its client re-registers ---- *)
+(* The second judgement of a URI that passed the first can fail in one way only: it does not match any
+   more (RedirectURIError) - provided the new registration consists of parseable entries (regs_ok).  The checks
+   that do not look at the registration were passed already and the query was parsed already. *)
+Lemma norm_native_total p : basic_checks p = Ok tt -> exists p', norm_native p = Ok p'.
+Proof.
+  intros Hb. unfold norm_native. destruct (is_http p && is_localhost p); [|eauto].
+  unfold remove_port. apply basic_checks_ok in Hb as (_ & _ & _ & [po Hpo]). rewrite Hpo. cbn [bind].
+  destruct po as [z|]; [|eauto]. destruct ((z =? 0)%Z || negb (nonempty (netloc p))); eauto.
+Qed.
+Theorem verify_uri_reverify regs0 n0 o0 regs1 n1 o1 u :
+  verify_uri regs0 n0 o0 u = Ok tt -> regs_ok regs1 n1 ->
+  verify_uri regs1 n1 o1 u = Ok tt \/ verify_uri regs1 n1 o1 u = Err redirect_error.
+Proof.
+  intros H [rs [Hrs Hnat]]. unfold verify_uri in H.
+  apply bind_ok in H as [d [Hd H]].
+  destruct (dirty d) eqn:Edirty; [discriminate|].
+  apply bind_ok in H as [p [Hp H]].
+  destruct (has_c 35 d) eqn:Ehash; [discriminate|].
+  apply bind_ok in H as [[] [Hb H]].
+  destruct regs0 as [|r0 regs0']; [discriminate|].
+  apply bind_ok in H as [rs0 [Hrs0 H]]. apply bind_ok in H as [p0' [Hp0' H]].
+  apply bind_ok in H as [rs0' [Hrs0' H]]. apply bind_ok in H as [qd [Hqd _]].
+  assert (Hq0 : query p0' = query p).
+  { destruct n0; [destruct (norm_native_spec _ _ Hp0') as (_ & _ & _ & S & _); exact S|now inversion Hp0']. }
+  unfold verify_uri. rewrite Hd. cbn [bind]. rewrite Edirty, Hp. cbn [bind]. rewrite Ehash, Hb. cbn [bind].
+  destruct regs1 as [|r1 regs1']; [now right|]. rewrite Hrs. cbn [bind].
+  destruct n1.
+  - destruct (norm_native_total p Hb) as [p' Hp']. rewrite Hp'. cbn [bind].
+    destruct (Hnat eq_refl) as [rs' Hrs']. rewrite Hrs'. cbn [bind].
+    destruct (norm_native_spec _ _ Hp') as (_ & _ & _ & S4 & _). rewrite S4, <- Hq0, Hqd. cbn [bind].
+    destruct (existsb (match1 p' qd) rs'); auto.
+  - cbn [bind]. rewrite <- Hq0, Hqd. cbn [bind]. destruct (existsb (match1 p qd) rs); auto.
+Qed.
+
+(* so: either the URI still verifies and the answer goes there, or nothing is sent *)
+Theorem inflight_answer viap failed regs1 n1 md r u :
+  q_uri r = Some u -> verify_uri (q_regs r) (q_native r) (q_oidc r) u = Ok tt -> regs_ok regs1 n1 ->
+  (verify_uri regs1 n1 (q_oidc r) u = Ok tt /\
+   answer_at false viap failed (Reg regs1 n1) md r
+   = if negb viap && failed then by_mode md u (set_uri r u) else deliver_to u (set_uri r u))
+  \/ (verify_uri regs1 n1 (q_oidc r) u = Err redirect_error /\
+      answer_at false viap failed (Reg regs1 n1) md r = AOther).
+Proof.
+  intros Hu Hv Hok. unfold answer_at, parse_step, decide, get_uri. rewrite Hu, Hv. cbn [bind].
+  unfold process_call, complete, get_uri_at, get_uri. cbn [set_uri q_regs q_native q_oidc q_uri].
+  destruct (verify_uri_reverify _ _ _ _ _ (q_oidc r) _ Hv Hok) as [E|E]; rewrite E; cbn [bind]; [left|right]; split; auto.
+  - now destruct viap, failed.
+  - now destruct viap.
+Qed.
